@@ -205,6 +205,15 @@ Proof.
     rewrite iter_all_str; cbn [seq_of]; destruct (forallb is_str l); reflexivity.
 Qed.
 
+Theorem check_heading_slug_func_src_eq E v : check_heading_slug_func_src E v = check_heading_slug_func E v.
+Proof.
+  unfold check_heading_slug_func_src, check_heading_slug_func.
+  destruct v; try reflexivity. cbn [jv_is_none is_str jv_str].
+  destruct (mem_N c_dot s); cbn [negb]; [|reflexivity].
+  destruct (e_import E s) as [obj| | |]; try reflexivity.
+  destruct (is_callable obj); reflexivity.
+Qed.
+
 (* url_schemes *)
 Lemma url_entry_src key val :
   (if negb (is_str key) then Raise TypeError
@@ -407,7 +416,7 @@ Definition custom_src (E : env) (name : str) (v : jv) : res (option jv) :=
   else if str_eqb name n_check_url_schemes then check_url_schemes_src v
   else if str_eqb name n_check_sub_delimiters then check_sub_delimiters_src v
   else if str_eqb name n_check_inventories then check_inventories_src v
-  else if str_eqb name n_check_heading_slug_func then check_heading_slug_func E v   (* not translated: import oracle *)
+  else if str_eqb name n_check_heading_slug_func then check_heading_slug_func_src E v
   else if str_eqb name n_check_fence_as_directive then check_fence_as_directive_src v
   else if str_eqb name n_check_positive_int then check_positive_int_src v
   else Raise AttributeError.
@@ -431,7 +440,7 @@ Proof.
   destruct (str_eqb n n_check_url_schemes); [apply check_url_schemes_src_eq|].
   destruct (str_eqb n n_check_sub_delimiters); [apply check_sub_delimiters_src_eq|].
   destruct (str_eqb n n_check_inventories); [apply check_inventories_src_eq|].
-  destruct (str_eqb n n_check_heading_slug_func); [reflexivity|].
+  destruct (str_eqb n n_check_heading_slug_func); [apply check_heading_slug_func_src_eq|].
   destruct (str_eqb n n_check_fence_as_directive); [apply (check_fence_as_directive_src_eq E)|].
   destruct (str_eqb n n_check_positive_int); [apply (check_positive_int_src_eq E)|].
   reflexivity.
